@@ -31,6 +31,9 @@ pub enum VerifEvent {
     /// A future of the encoder completed and its result is about to be
     /// handled.
     TaskDone(VerifTask),
+    /// The encoder returned, reporting these clauses as conflicting with the
+    /// current decisions.
+    EncodeResult(Vec<u32>),
 }
 
 /// A unit of work of the encoder (`u32::MAX` is the root).
@@ -136,4 +139,6 @@ pub struct VerifDump {
     /// The assignment trail at the end of the solve as `(variable, value,
     /// level, reason)`.
     pub trail: Vec<(u32, bool, u32, u32)>,
+    /// The clauses registered as negative assertions, in registration order.
+    pub negative_assertions: Vec<u32>,
 }
